@@ -76,7 +76,10 @@ PROPS.update({
 
 PROPS.update({
     "C05": dict(
-        family="pool", theorems=[],
+        family="pool",
+        theorems=T("C05", "inv_init", "inv_step", "never_faults", "others_untouched", "inv_reachable", "progress", "refines",
+                   "refines_reachable", "observed_value", "exclusive", "no_leak", "reachable_finite", "no_leak_reachable",
+                   "moved_from_valid"),
         rule="histories of buffer operations with a full snapshot of every live object after every step: every sequence of 2 (quick) / 3 (thorough) operations "
              "from a 25-entry menu (clear, copy/move assignment incl. self, allocate, allocate+fill around the limit, destroy+reconstruct by copy/move) applied to three "
              "objects in all 6x6x3 size-class combinations, plus seeded random histories of 30 operations over 3..6 objects for all four element types; ASan + LSan. "
@@ -86,8 +89,20 @@ PROPS.update({
 })
 
 MANIFEST_TEXT = {
-    "C05": dict(text="(under construction) object/heap machine for ST::buffer<T>; histories compared with the implementation step by step",
-                design_ref="DESIGN.md section 3, C04/C05", note="see evidence", technique="Lean 4 proof over a hand model + differential correspondence under ASan/LSan"),
+    "C05": dict(
+        text="Theorems (every small-buffer limit L > 0, every pool, every history by induction, no bound on length, objects or sizes): an object/heap machine "
+             "transcribes each ST::buffer<T> member statement by statement (constructors, destructor, clear, copy/move assignment incl. self-assignment, allocate, "
+             "allocate+fill, stores through data()); with bad free, double free, use after free and out-of-bounds access as explicit outcomes. The invariant (short "
+             "contents in the object's own array, long contents in a heap block of size+1 owned by exactly one object, NUL after the last element, every block owned: "
+             "no leak) holds initially and is kept by every operation, which always completes without any of those outcomes; the machine refines a value-per-object "
+             "specification (each live object reports the size and exactly the specified elements of the last value given to it, other objects are untouched, "
+             "pointer included); a moved-from object satisfies the same invariant and can be read, assigned and destroyed; destroying all live objects in any "
+             "order leaves an empty heap. Tied to the code by step-by-step snapshots of every live object over enumerated and random histories under ASan/LSan.",
+        design_ref="DESIGN.md section 3, C04/C05",
+        note="Trusted: Lean kernel + 3 standard axioms, Spec/Store.lean as the meaning of 'last value given', Model/Pool.lean as transcription of st_charbuffer.h "
+             "(validated by the history harness for all four element types), ASan/LSan and the counting operator new for the implementation side. One genuine "
+             "defect class (moved-from buffers aliasing the other object / lacking the NUL) was found by this check and repaired (fixed: entry in known_findings.json).",
+        technique="Lean 4 proof (invariant + refinement over all histories of a pointer/heap machine) + differential correspondence of per-step snapshots under ASan/LSan"),
     "C01": dict(
         text="Theorems (all scalar sequences by induction, all three modes): each of the six UTF-8/16/32 directions, ST::string construction from any encoding and "
              "the to_* members map the standard encoding (Unicode Table 3-6 / D91 written with / and %) to the standard encoding, chains return the original units, "
